@@ -88,7 +88,7 @@ func VP_C13_wire_roundtrip() {
 	src := EmptyChunk(1)
 	probes := []int{0, 4095, 1, 17}
 	np := 2 + 2*vp.Tier() // positions written (quick: the first and the last)
-	k := vp.Choice(3)
+	k := vp.Choice(2 + vp.Tier()) // quick: 0 or 1 SetBlock (each upgrade copies 4096 entries)
 	for n := 0; n < k; n++ {
 		src.Sections[0].SetBlock(probes[vp.Choice(np)], vpRegState())
 	}
